@@ -7,7 +7,7 @@
    [name] everywhere below is the text after <obj>.http. exactly as written in VCL. *)
 From Coq Require Import List NArith Bool.
 From Coq Require Import Strings.Byte.
-From Falco Require Import Base.Bytes Model.HdrField Gen.HdrTables.
+From Falco Require Import Base.Bytes Model.HdrField Model.HdrCookie Gen.HdrTables.
 Import ListNotations.
 Local Open Scope N_scope.
 
@@ -63,6 +63,11 @@ Definition header_add (st : hstate) (name v : bytes) : hstate :=
 Definition header_del (st : hstate) (name : bytes) : hstate :=
   {| hmap := map_del (canon name) (hmap st); akeys := akeys st |}.
 
+Definition header_lines (st : hstate) (name : bytes) : list bytes :=
+  match map_get (canon name) (hmap st) with Some l => l | None => [] end.
+Definition header_set_lines (st : hstate) (name : bytes) (l : list bytes) : hstate :=
+  {| hmap := map_set (canon name) l (hmap st); akeys := akeys st |}.
+
 (* headerKeyStore (repaired) *)
 Definition is_assigned (st : hstate) (name : bytes) : bool := mem (canon name) (akeys st).
 Definition assign (st : hstate) (name : bytes) : hstate :=
@@ -91,7 +96,7 @@ Inductive kind := KReq | KResp.
 Inductive outcome :=
 | Done (st : hstate)
 | Refused                (* Variable.Set/Add/Unset returns an error; state unchanged *)
-| Unmodelled.            (* the Cookie:key paths of request objects (net/http cookie code) *)
+| Unmodelled.            (* not produced any more: the Cookie:key paths are modelled (Model/HdrCookie.v) *)
 
 (* getRequestHeaderValue / getResponseHeaderValue (repaired: an empty header has no sub-field) *)
 Definition h_get (kd : kind) (st : hstate) (name : bytes) : option rd :=
@@ -101,9 +106,18 @@ Definition h_get (kd : kind) (st : hstate) (name : bytes) : option rd :=
     Some (if negb (is_nil key) || negb (is_assigned st n) then RNotSet else RStr [])
   else if is_nil key then Some (RStr v)
   else match kd with
-       | KReq => if is_cookie n then None else Some (get_field v key)
+       | KReq => if is_cookie n then
+                   Some (match cookie_get (header_lines st n) key with
+                         | Some c => RStr c
+                         | None => get_field v key
+                         end)
+                 else Some (get_field v key)
        | KResp => Some (get_field v key)
        end.
+
+(* value.String.String(): the not-set string prints as the text (null) *)
+Definition val_string (v : val) : bytes :=
+  match v with VNotSet => [x28; x6e; x75; x6c; x6c; x29] | VStr s => s end.
 
 (* Variable.Set(scope, <obj>.http.<name>, `=`, v) *)
 Definition h_set (kd : kind) (st : hstate) (name : bytes) (v : val) : outcome :=
@@ -116,15 +130,12 @@ Definition h_set (kd : kind) (st : hstate) (name : bytes) (v : val) : outcome :=
     end
   else
     match kd with
-    | KReq => if is_cookie n then Unmodelled
+    | KReq => if is_cookie n then Done (header_set_lines st n (cookie_set (header_lines st n) key (val_string v)))
               else Done (assign (header_set st n (set_field (header_get st n) key v)) n)
     | KResp => Done (assign (header_set st n (set_field (header_get st n) key v)) n)
     end.
 
 (* Variable.Add: Header.Add(<name as written>, val.String()) - no truncation, no bookkeeping *)
-(* value.String.String(): the not-set string prints as the text (null) *)
-Definition val_string (v : val) : bytes :=
-  match v with VNotSet => [x28; x6e; x75; x6c; x6c; x29] | VStr s => s end.
 Definition h_add (kd : kind) (st : hstate) (name : bytes) (v : val) : outcome :=
   if protected name then Refused else Done (header_add st name (val_string v)).
 
@@ -147,6 +158,22 @@ Definition unset_sub (st : hstate) (n key : bytes) : hstate :=
   if is_nil t then unassign (header_del st n) n
   else unassign (header_set st n t) n.
 
+(* removeCookieByName *)
+Definition cookie_unset_sub (st : hstate) (n key : bytes) : hstate :=
+  match header_lines st n with
+  | [] => st
+  | lines => match remove_cookie lines key with
+             | [] => header_del st n
+             | l => header_set_lines st n l
+             end
+  end.
+
+(* the header.get built-in: a read path that knows neither not-set nor the field grammar *)
+Definition h_getfn (st : hstate) (name : bytes) : rd :=
+  if negb (fn_name_ok name) then RStr []
+  else let '(n, key, found) := cut_colon name in
+       if negb found then RStr (header_get st name) else RStr (fn_lookup (header_lines st n) key).
+
 (* Variable.Unset *)
 Definition h_unset (kd : kind) (st : hstate) (name : bytes) : outcome :=
   if protected name then Refused else
@@ -159,7 +186,7 @@ Definition h_unset (kd : kind) (st : hstate) (name : bytes) : outcome :=
     let '(n, key, found) := cut_colon name in
     if negb found then Done (unassign (header_del st n) n)
     else match kd with
-         | KReq => if is_cookie n then Unmodelled else Done (unset_sub st n key)
+         | KReq => if is_cookie n then Done (cookie_unset_sub st n key) else Done (unset_sub st n key)
          | KResp => Done (unset_sub st n key)
          end
   end.
